@@ -181,6 +181,24 @@ def _primed_map(cfg, prime):
         except Exception:
             pass
         return pm
+    if prime == "energy":
+        # another map of the same manifold, at another energy, computed the run's section first; the run then uses its own fresh map object
+        pm0 = _make_map(dict(cfg, h0=cfg["h0"] * 0.5))
+        STRAT.np.seed = cfg["rng_seed"]
+        try:
+            pm0.compute(section_coord=cfg["section"], options=_options(small, 1))
+        except Exception:
+            pass
+        return _make_map(cfg)
+    if prime == "recompute":
+        # the same map object already computed the run's section with fewer iterations and seeds' worth of rows
+        pm = _make_map(cfg)
+        STRAT.np.seed = cfg["rng_seed"]
+        try:
+            pm.compute(section_coord=cfg["section"], options=_options(small, 1))
+        except Exception:
+            pass
+        return pm
     # degree: a private manifold that starts at another degree, computes a map, then switches to the run's degree
     from hiten.system.center import CenterManifold
     deg = int(env["cm"].degree)
@@ -363,7 +381,7 @@ def execute(ctx: RunCtx) -> None:
     cfg = draw_config(ds, len(ENVS), quick=(ctx.tier == "quick"))
     fault_cfg = ds.flag("cfg.fault_configuration", 0.15)
     use_psim = ds.flag("cfg.prange_sim_kernel", 0.5)
-    prime = ds.pick(["none", "section", "degree"], "cfg.map_history", (0.6, 0.2, 0.2))
+    prime = ds.pick(["none", "section", "degree", "energy", "recompute"], "cfg.map_history", (0.5, 0.15, 0.15, 0.1, 0.1))
     log.add("cfg", {k: (fhex(v) if isinstance(v, float) else v) for k, v in cfg.items()}, fault_cfg, use_psim, prime)
     ctx.sample = {"config": dict(cfg, env=ENVS[cfg["env"]]["name"]), "fault_configuration": fault_cfg, "prange_sim_kernel": use_psim, "map_history": prime}
     what = f"map {ENVS[cfg['env']]['name']} {cfg}"
